@@ -104,6 +104,26 @@ pub fn gen_sources(rng: &mut Rng, tier: &Tier) -> Vec<Case> {
         }
         cases.push(c);
     }
+    // sources that are NOT fused (an end marker, then items again): `Peek` must hand out a peeked end marker like
+    // any other peeked answer (`Peekable`), plain pulls and the cache wrapper pass the raw answers through
+    for _ in 0..tier.n(120, 1200) {
+        let n = rng.range(1, 7);
+        let v: Vec<String> =
+            (0..n).map(|_| if rng.chance(1, 3) { "-".to_string() } else { rng.range(-5, 5).to_string() }).collect();
+        let top = *rng.pick(&["peek", "peek", "peek", "src", "scache"]);
+        let mut c = vec![format!("new 1 {} burst[{}]", top, v.join(","))];
+        for _ in 0..rng.range(3, 2 * n + 6) {
+            match top {
+                "peek" => c.push(if rng.chance(1, 2) { "peek 1" } else { "pull 1" }.into()),
+                "scache" => {
+                    c.push("pull 1".into());
+                    c.push("cached 1".into());
+                }
+                _ => c.push("pull 1".into()),
+            }
+        }
+        cases.push(c);
+    }
     cases.extend(gen_source_cache(rng, tier));
     cases
 }
@@ -147,6 +167,24 @@ pub fn gen_sinks(rng: &mut Rng, tier: &Tier) -> Vec<Case> {
             let as_filter = kind != "sink_last" && kind != "sink_unit_sum" && rng.chance(1, 2);
             let mut c = vec![format!("new 1 {}", kind), "fin 1".to_string()];
             for v in vals {
+                c.push(if as_filter { format!("ff 1 {}", v) } else { format!("sink 1 {}", v) });
+                c.push("fin 1".into());
+            }
+            cases.push(c);
+        }
+    }
+    // zero-heavy sequences (all zeros, leading zeros, sums returning to zero): "nothing received" and "only zeros
+    // received" are different states
+    for kind in SINKS {
+        if kind == "sink_unit_sum" && !cfg!(feature = "units") {
+            continue;
+        }
+        for _ in 0..tier.n(12, 120) {
+            let len = rng.range(1, 6) as usize;
+            let as_filter = kind != "sink_last" && kind != "sink_unit_sum" && rng.chance(1, 2);
+            let mut c = vec![format!("new 1 {}", kind)];
+            for _ in 0..len {
+                let v = *rng.pick(&[0i64, 0, 0, 1, -1]);
                 c.push(if as_filter { format!("ff 1 {}", v) } else { format!("sink 1 {}", v) });
                 c.push("fin 1".into());
             }
